@@ -12,12 +12,19 @@
     C12_rest, C12_rest_output   initial state zero; zero state and zero input give zero output;
     C12_input_order        row k of `_u` is the waveform supplied for `sources[k]`;
     C12_output_sample      sample t of an output is row_c·x_t + row_d·u_t.
-  Open: C12_kcl_sample_statement, C12_element_laws_statement (the per-sample system is
-  Kirchhoff's laws + element laws of the circuit), C12_periodic_steady_statement.
+    C12_sample_is_circuit  the per-sample network (capacitor k ↦ current source C_k·ẋ_k, inductor
+                           k ↦ voltage source L_k·ẋ_k, sources at u) has the same nodal matrix as the
+                           w = 0 network, so by C01_sound every y with Ã y = mnaB(sampleNet) reports
+                           values that satisfy KCL at every node, KVL and every element law;
+    C12_kcl_sample_of_rhs, C12_element_laws_of_rhs   its KCL / element-law projections.
+  Open: C12_sample_rhs_statement (the right-hand side of the sample network IS the model's
+  QS·u + DQ·Λ·ẋ — index bookkeeping; with it C12_sample_equations + C12_sample_is_circuit give)
+  C12_kcl_sample_statement, C12_element_laws_statement; C12_periodic_steady_statement.
 -/
 import CC.Proofs.StateModel
 import CC.Spec.StateSpace
 import CC.Properties.C10
+import CC.Proofs.StateCircuit
 
 set_option linter.unusedSectionVars false
 
@@ -85,6 +92,56 @@ theorem C12_output_sample (nS : Nat) (rc rd : List K) (X U : List (List K)) (t :
   transientOutput_get nS rc rd X U t ht
 
 end
+
+/-! ### the per-sample network is solved (C01 applied to the substituted network) -/
+
+section
+variable {L K : Type} [DecidableEq L] [LabelOrd L] [Field K] [DecidableEq K]
+
+/-- For the `w = 0` network of an RLC circuit (distinct ids, no self-loops, capacitors open,
+inductors shorted): any `y` with `Ã y = mnaB (sampleNet … u ẋ)` reports a solution of the circuit
+equations of the sample network — reference at zero, voltages = potential differences, every
+element law (capacitor current `C_k·ẋ_k`, inductor voltage `L_k·ẋ_k`, sources at `u`, resistors),
+Kirchhoff's current law at every node. -/
+theorem C12_sample_is_circuit (N : Net L K) (cvals lvals : ValDict K) (sources : List String)
+    (u xdot y : List K) (wf : N.WF) (hp : ReactivePlaceholders N cvals lvals)
+    (hy : y.length = N.nodes.length + N.vsIds.length)
+    (h : matVec N.mnaA y = (sampleNet N cvals lvals sources u xdot).mnaB) :
+    CircuitEqs (sampleNet N cvals lvals sources u xdot) ((sampleNet N cvals lvals sources u xdot).reportOf y) :=
+  sample_is_circuit N cvals lvals sources u xdot y wf hp hy h
+
+theorem C12_kcl_sample_of_rhs (N : Net L K) (cvals lvals : ValDict K) (sources : List String)
+    (u xdot y : List K) (wf : N.WF) (hp : ReactivePlaceholders N cvals lvals)
+    (hy : y.length = N.nodes.length + N.vsIds.length)
+    (h : matVec N.mnaA y = (sampleNet N cvals lvals sources u xdot).mnaB) :
+    ∀ n ∈ (sampleNet N cvals lvals sources u xdot).allLabels,
+      kclResidual (sampleNet N cvals lvals sources u xdot)
+        ((sampleNet N cvals lvals sources u xdot).reportOf y) n = 0 :=
+  (C12_sample_is_circuit N cvals lvals sources u xdot y wf hp hy h).kcl
+
+theorem C12_element_laws_of_rhs (N : Net L K) (cvals lvals : ValDict K) (sources : List String)
+    (u xdot y : List K) (wf : N.WF) (hp : ReactivePlaceholders N cvals lvals)
+    (hy : y.length = N.nodes.length + N.vsIds.length)
+    (h : matVec N.mnaA y = (sampleNet N cvals lvals sources u xdot).mnaB) :
+    ∀ b ∈ (sampleNet N cvals lvals sources u xdot).branches,
+      b.e.lawResidual (((sampleNet N cvals lvals sources u xdot).reportOf y).v b.id)
+        (((sampleNet N cvals lvals sources u xdot).reportOf y).i b.id) = 0 :=
+  (C12_sample_is_circuit N cvals lvals sources u xdot y wf hp hy h).law
+
+end
+
+/-- OPEN (index bookkeeping only).  The right-hand side of the sample network is the model's
+`QS·u + DQ·Λ·ẋ`: node rows collect the source currents `u_k` and the capacitor currents
+`C_k·ẋ_k` with the signs of `source_incidence_matrix` / `Delta`, voltage-source rows carry the
+source voltages `u_k` and the inductor voltages `L_k·ẋ_k`. -/
+def C12_sample_rhs_statement : Prop :=
+  ∀ (K : Type) [Field K] [DecidableEq K] (N : Net String K) (cvals lvals : ValDict K)
+    (Delta : List (List K)) (u xdot : List K),
+    RLCSetting N cvals lvals → ssDelta N cvals = .ok Delta →
+    u.length = ssNInputs N lvals → xdot.length = ssNStates N cvals lvals →
+    (sampleNet N cvals lvals (ssSources N lvals) u xdot).mnaB
+      = Mx.vecAdd (matVec (ssQS N lvals) u)
+          (matVec (ssDQ N cvals lvals Delta) (List.zipWith (· * ·) (ssLambda cvals lvals) xdot))
 
 /-! ### open statements -/
 
